@@ -282,3 +282,72 @@ Qed.
 Print Assumptions digits_dec_value.
 Print Assumptions from_binary_of_binary_format.
 Print Assumptions from_hex_of_hex_format.
+
+(* ------------------------------------------------------------------ padding (C14: "standard prefixes and padding") *)
+
+Definition natural_text (f : fspec) (prefix digits : list N) : list N :=
+  (if f_plus f then [43] else []) ++ (if f_alt f then prefix else []) ++ digits.
+
+Lemma lenw_app (a b : list N) : lenw (a ++ b) = lenw a + lenw b.
+Proof. unfold lenw. rewrite app_length. lia. Qed.
+
+Lemma lenw_repeatc c n : lenw (repeatc c n) = n.
+Proof. unfold lenw, repeatc. rewrite repeat_length. lia. Qed.
+
+(* the output is exactly as long as the larger of the requested width and the unpadded text *)
+Lemma pad_integral_length f prefix digits :
+  lenw (pad_integral f prefix digits) = N.max (f_width f) (lenw (natural_text f prefix digits)).
+Proof.
+  unfold pad_integral, natural_text.
+  set (sign := if f_plus f then [43] else []). set (pre := if f_alt f then prefix else []).
+  destruct (N.leb_spec (f_width f) (lenw (sign ++ pre ++ digits))) as [Hle|Hgt].
+  - lia.
+  - destruct (f_zero f).
+    + rewrite !lenw_app, lenw_repeatc. rewrite !lenw_app in Hgt. lia.
+    + destruct (f_align f) as [|[p|p|]]; try destruct p;
+        rewrite ?lenw_app, ?lenw_repeatc; rewrite ?lenw_app in Hgt;
+        try (pose proof (div_mod_eq (f_width f - (lenw sign + (lenw pre + lenw digits))) 2);
+             pose proof (div_mod_eq (f_width f - (lenw sign + (lenw pre + lenw digits)) + 1) 2);
+             pose proof (N.mod_upper_bound (f_width f - (lenw sign + (lenw pre + lenw digits))) 2);
+             pose proof (N.mod_upper_bound (f_width f - (lenw sign + (lenw pre + lenw digits)) + 1) 2)); lia.
+Qed.
+
+(* no width, or a width the text already fills: sign, prefix (with #) and digits, nothing else *)
+Lemma pad_integral_no_padding f prefix digits :
+  f_width f <= lenw (natural_text f prefix digits) -> pad_integral f prefix digits = natural_text f prefix digits.
+Proof.
+  unfold pad_integral, natural_text. intros H.
+  destruct (N.leb_spec (f_width f) (lenw ((if f_plus f then [43] else []) ++ (if f_alt f then prefix else []) ++ digits))); [reflexivity|lia].
+Qed.
+
+(* with the 0 flag the zeros go between the prefix and the digits, whatever fill and alignment say *)
+Lemma pad_integral_zero_flag f prefix digits :
+  f_zero f = true -> lenw (natural_text f prefix digits) < f_width f ->
+  pad_integral f prefix digits =
+  (if f_plus f then [43] else []) ++ (if f_alt f then prefix else []) ++
+  repeatc 48 (f_width f - lenw (natural_text f prefix digits)) ++ digits.
+Proof.
+  unfold pad_integral, natural_text. intros Hz H.
+  destruct (N.leb_spec (f_width f) (lenw ((if f_plus f then [43] else []) ++ (if f_alt f then prefix else []) ++ digits))); [lia|].
+  rewrite Hz. reflexivity.
+Qed.
+
+(* without it the text is surrounded by the fill character: all on the right for <, split for ^ (the odd one on the
+   right), all on the left for > and for no alignment (numbers are right-aligned by default) *)
+Lemma pad_integral_fill f prefix digits :
+  f_zero f = false -> lenw (natural_text f prefix digits) < f_width f ->
+  let pad := f_width f - lenw (natural_text f prefix digits) in
+  let l := match f_align f with 1 => 0 | 2 => pad / 2 | _ => pad end in
+  pad_integral f prefix digits =
+  repeatc (f_fill f) l ++ natural_text f prefix digits ++ repeatc (f_fill f) (pad - l).
+Proof.
+  unfold pad_integral, natural_text. intros Hz H. cbv zeta.
+  set (body := (if f_plus f then [43] else []) ++ (if f_alt f then prefix else []) ++ digits) in *.
+  destruct (N.leb_spec (f_width f) (lenw body)); [lia|]. rewrite Hz.
+  set (pad := f_width f - lenw body).
+  assert (forall c, repeatc c 0 = []) as R0 by reflexivity.
+  destruct (f_align f) as [|[p|p|]]; try destruct p; rewrite ?R0, ?N.sub_0_r, ?N.sub_diag, ?R0, ?app_nil_r; cbn [app]; try reflexivity.
+  replace (pad - pad / 2) with ((pad + 1) / 2); [reflexivity|].
+  pose proof (div_mod_eq pad 2). pose proof (div_mod_eq (pad + 1) 2).
+  pose proof (N.mod_upper_bound pad 2). pose proof (N.mod_upper_bound (pad + 1) 2). lia.
+Qed.
